@@ -9,7 +9,7 @@ VERIF = os.path.dirname(os.path.dirname(os.path.abspath(__file__)))
 REPO = os.environ.get("LSF_REPO", "/repo")
 REPO_PY = os.path.join(REPO, "asl-workflow-engine", "py")
 HARNESS = os.path.join(VERIF, "harness")
-EVIDENCE = os.path.join(VERIF, "evidence")
+EVIDENCE = os.environ.get("VERIF_EVIDENCE_DIR") or os.path.join(VERIF, "evidence")
 GUARD = "LSF_VERIF"
 
 
